@@ -359,8 +359,9 @@ def op_regions(fx, w):
     return f, {v: edge_region(f, sb, tb) | {tb} for v, tb in m.items()}
 
 
-SIB_EFFECTS = MUTATING | LINK_FOLLOWING | LSTAT | {FILE_OPEN, "libxcp::paths::lexists", "libxcp::paths::exists",
-                                                   "libfs::linux::copy_node", NEW, SEND}
+# effects compared between the drivers: what is done to the destination, the gates consulted, and the
+# error report; read-only probes are not compared (an extra stat in one driver changes nothing)
+SIB_EFFECTS = MUTATING | {FILE_OPEN, "libxcp::paths::lexists", "libxcp::paths::exists", "libfs::linux::copy_node", NEW, SEND}
 
 
 # different primitives, same effect on the destination
@@ -651,45 +652,40 @@ def parblock_ranges(fx, b):
 
 
 def truncate_then_size(fx):
-    """C01(a)/C11(b): the destination descriptor comes from a truncating open and is sized from the
-    *source's* length before the handle exists (so before any data call)."""
+    """C01(a)/C11(b): every Ok(handle) of CopyHandle::new has passed a truncating open and a pre-sizing
+    truncate (directly or through helpers); the descriptor sized is a destination descriptor and the length a
+    source quantity (R-ROLE, inter-procedural); no OpenOptions chain exists, so File::create is the only way a
+    destination descriptor can be made."""
+    import p_role
     obs = []
     f = fx.fn(NEW)
     if f is None:
         return [anchor_ob("R-ORDER", NEW)]
     cfg = cfg_of(f)
-    creates = q.calls_to(f, FILE_CREATE)
-    allocs = q.calls_to(f, "libfs::common::allocate_file")
+    creates = [b_ for b_, t, h in ro.performers(fx, f, FILE_CREATE)]
+    sizes = [b_ for b_, t, h in ro.performers(fx, f, FTRUNCATE)]
     oks = [bi for bi, b in enumerate(f.blocks) if not b.get("cleanup") and any(
         s["lhs"]["l"] == 0 and s["rv"]["k"] == "agg" and s["rv"].get("variant") == "Ok" for s in b["stmts"])]
-    if not creates or not allocs or not oks:
-        return [anchor_ob("R-ORDER", "CopyHandle::new: File::create / allocate_file / Ok return")]
-    for n, (bi, t) in enumerate(allocs):
-        c0, a0, f0 = q.arg_origin_calls(f, t, 0)
-        okfd = FILE_CREATE in c0
-        obs.append(Ob("R-TABLE", mkkey("R-TABLE", NEW, "libfs::common::allocate_file", n, "fd<-create"), okfd, q.loc_of(t), NEW,
-                      "the descriptor that is sized comes from %s" % sorted(x.split("::")[-1] for x in c0),
-                      None if okfd else dict(origins=sorted(c0))))
-        c1, a1, f1 = q.arg_origin_calls(f, t, 1)
-        oklen = "std::fs::Metadata::len" in c1 and FILE_OPEN in _meta_origin(f, t)
-        obs.append(Ob("R-TABLE", mkkey("R-TABLE", NEW, "libfs::common::allocate_file", n, "len<-source"), oklen, q.loc_of(t), NEW,
-                      "the length comes from the metadata of the opened source: %s" % oklen,
-                      None if oklen else dict(origins=sorted(c1))))
-        okdom = all(cfg.dominates(bi, ob_) for ob_ in oks)
-        obs.append(Ob("R-ORDER", mkkey("R-ORDER", NEW, "libfs::common::allocate_file", n, "before-Ok"), okdom, q.loc_of(t), NEW,
-                      "every Ok(handle) return passes through the sizing call: %s" % okdom))
-    # the CopyHandle's outfd field is that descriptor
-    for bi, b in enumerate(f.blocks):
-        for s in b["stmts"]:
-            rv = s["rv"]
-            if rv["k"] == "agg" and rv.get("adt") == COPYHANDLE:
-                i = rv["fnames"].index("outfd")
-                l = op_local(rv["fields"][i])
-                atoms, _f, _s = Prov(f).origins(l)
-                ok = any(a.kind == "call" and a.what == FILE_CREATE for a in atoms)
-                obs.append(Ob("R-TABLE", mkkey("R-TABLE", NEW, "CopyHandle.outfd", 0, "<-create"), ok,
-                              "%s:%d" % (s["span"]["file"], s["span"]["line"]), NEW,
-                              "CopyHandle.outfd is the truncating File::create descriptor: %s" % ok))
+    if not oks:
+        return [anchor_ob("R-ORDER", "CopyHandle::new has an Ok return")]
+    for what, blocks, nm in (("a truncating File::create", creates, FILE_CREATE), ("the pre-sizing ftruncate", sizes, FTRUNCATE)):
+        ok = bool(blocks) and all(any(cfg.dominates(b_, o) for b_ in blocks) for o in oks)
+        obs.append(Ob("R-ORDER", mkkey("R-ORDER", NEW, nm, 0, "before-Ok"), ok, f.loc(), NEW,
+                      "every Ok(handle) return has passed %s: %s" % (what, ok),
+                      None if ok else dict(performers=blocks, ok_blocks=oks)))
+    # the sizing follows the open on every path (the open truncates, the ftruncate then extends)
+    ok = bool(creates) and bool(sizes) and all(any(cfg.dominates(c, s_) for c in creates) for s_ in sizes)
+    obs.append(Ob("R-ORDER", mkkey("R-ORDER", NEW, FTRUNCATE, 0, "after-create"), ok, f.loc(), NEW,
+                  "the destination is sized after it was opened/truncated: %s" % ok))
+    # roles of the sizing call and of the handle's fields (inter-procedural)
+    robs = [o for o in p_role.role_obs(fx) if ("allocate_file" in o.key or "ftruncate" in o.key or "CopyHandle::CopyHandle" in o.key
+                                               or FILE_CREATE in o.key) and not o.trivial]
+    if len(robs) < 5:
+        obs.append(anchor_ob("R-ROLE", "sizing/handle role sinks (found %d)" % len(robs)))
+    obs += robs
+    # OpenOptions would hide the open mode from the callee identity
+    import p_gate
+    obs += p_gate.sources_read_only(fx)
     return obs
 
 
